@@ -408,10 +408,85 @@ func errReturnedWith(errVal ssa.Value, u ssa.Instruction) bool {
 			return true
 		}
 	}
+	// ... or together with another (wrapping, relabelling) error, on the path
+	// where the parse error is known to be non-nil: `return v, &HTTPError{400, err}`
+	if knownNonNilAt(errVal, ret.Block()) {
+		for _, r := range ret.Results {
+			if isErrorType(r.Type()) && !isNilConst(r) {
+				return true
+			}
+		}
+	}
 	return false
 }
 
 func isNamed(t types.Type, pkg, name string) bool {
 	n := namedOf(t)
 	return n != nil && n.Obj().Pkg() != nil && n.Obj().Pkg().Path() == pkg && n.Obj().Name() == name
+}
+
+// harmlessOnError: a parse whose error is deliberately not tested because its
+// value is only ever compared with constants — on failure the value is the
+// zero value, which selects the default branch (mime.ParseMediaType in
+// isContentXML and in the client's error-body handling). Decided from the
+// uses of the value, not from the name of the function it sits in.
+func harmlessOnError(call *ssa.Call) (bool, string) {
+	if calleeName(call.Common()) != "mime.ParseMediaType" {
+		return false, ""
+	}
+	for _, r := range *call.Referrers() {
+		ex, ok := r.(*ssa.Extract)
+		if !ok {
+			continue
+		}
+		if ex.Index != 0 {
+			// params map and error: must not be used at all (beyond being tested)
+			if ex.Index == 1 && len(*ex.Referrers()) > 0 {
+				return false, ""
+			}
+			continue
+		}
+		var only func(v ssa.Value, depth int) bool
+		only = func(v ssa.Value, depth int) bool {
+			if depth > 3 {
+				return false
+			}
+			for _, u := range *v.Referrers() {
+				switch x := u.(type) {
+				case *ssa.DebugRef:
+				case *ssa.BinOp:
+					other := x.Y
+					if other == v {
+						other = x.X
+					}
+					if _, isK := other.(*ssa.Const); !isK || (x.Op != token.EQL && x.Op != token.NEQ) {
+						return false
+					}
+				case *ssa.Call:
+					n := calleeName(x.Common())
+					okp := n == "strings.HasPrefix" || n == "strings.HasSuffix" || n == "strings.EqualFold" || n == "strings.Contains"
+					if !okp || len(x.Common().Args) != 2 {
+						return false
+					}
+					if _, isK := x.Common().Args[1].(*ssa.Const); !isK || x.Common().Args[0] != v {
+						return false
+					}
+				case *ssa.Phi:
+					if !only(x, depth+1) {
+						return false
+					}
+				case *ssa.Return:
+					// handed to the caller as a plain string
+					return false
+				default:
+					return false
+				}
+			}
+			return true
+		}
+		if !only(ex, 0) {
+			return false, ""
+		}
+	}
+	return true, "on error the media type is the empty string, which selects the default branch; the value is only compared with constants"
 }
